@@ -769,6 +769,52 @@ def check_stepper_rounding(rep: Report, ix) -> None:
         rep.violation("C08.stepper-rounding", f"{fi.ref}::nearest-step", f"the stepper does not stop at the step nearest to the requested (scheduled) time: {w}", line=fi.node.lineno)
 
 
+def check_adaptive_flag_declared(rep: Report, ix) -> None:
+    """the controller chooses the tracker tolerance from info['dt'] and info['dt_adaptive'] of the solver: half a step is right
+    only for steppers that advance in whole steps of dt.  Rule: every solver `make_stepper` that publishes info['dt'] also
+    assigns info['dt_adaptive'] (directly or through super().make_stepper), and a make_stepper that does not build its stepper
+    from the fixed-step machinery (_make_inner_stepper / back-end make_stepper) -- e.g. the scipy integrator, which stops
+    exactly at the requested time -- declares it True."""
+    n = 0
+    for rel, m in sorted(ix.modules.items()):
+        if not rel.startswith("pde/solvers/"):
+            continue
+        for fi in m.functions.values():
+            if fi.node.name != "make_stepper" or fi.cls is None:
+                continue
+            writes = {}
+            for st in ast.walk(fi.node):
+                if isinstance(st, ast.Assign):
+                    for t in st.targets:
+                        if isinstance(t, ast.Subscript) and ast.unparse(t.value) == "self.info" and isinstance(t.slice, ast.Constant):
+                            writes[t.slice.value] = st.value
+            delegates = any(isinstance(c, ast.Call) and isinstance(c.func, ast.Attribute) and c.func.attr == "make_stepper" and isinstance(c.func.value, ast.Call) and dotted(c.func.value.func) == "super" for c in ast.walk(fi.node))
+            if "dt" not in writes and delegates:
+                continue
+            n += 1
+            rep.saw("functions", fi.ref)
+            fixed_machinery = any(isinstance(c, ast.Call) and isinstance(c.func, ast.Attribute) and c.func.attr in ("_make_inner_stepper", "make_stepper") and not (isinstance(c.func.value, ast.Call) and dotted(c.func.value.func) == "super") for c in ast.walk(fi.node))
+            declared = "dt_adaptive" in writes or delegates
+            ok = declared
+            why = ""
+            if not declared:
+                why = "info['dt'] is published without info['dt_adaptive']"
+            elif not fixed_machinery and not delegates:
+                v = writes.get("dt_adaptive")
+                if not (isinstance(v, ast.Constant) and v.value is True):
+                    ok = False
+                    why = f"the stepper is not built from the fixed-step machinery, yet info['dt_adaptive'] = {ast.unparse(v) if v is not None else None}"
+            rep.oblige(f"{fi.qualname}: adaptivity of the stepper is declared to the controller", ok, why or {k: ast.unparse(v)[:40] for k, v in writes.items()})
+            if not ok:
+                rep.violation(
+                    "C08.adaptive-tolerance",
+                    f"{fi.ref}::dt_adaptive",
+                    f"{why}: the controller then treats info['dt'] as a fixed step and lets trackers fire up to dt/2 before their scheduled time although this stepper stops exactly at the requested time",
+                    line=fi.node.lineno,
+                )
+    rep.floor("solver make_stepper methods publishing a time step", n, 2)
+
+
 def check(tier: str) -> Report:
     rep = Report("C08", tier, "other", "static: control-flow graph queries (dominance, post-dominance, path counting, reachability) + reaching definitions")
     rep.explanation = (
@@ -787,6 +833,7 @@ def check(tier: str) -> Report:
     check_controller(rep, ix)
     check_storage_tracker(rep, ix)
     check_stepper_rounding(rep, ix)
+    check_adaptive_flag_declared(rep, ix)
     rep.assumptions += [
         "exceptions other than those raised by calls inside a try body / explicit raise are not modelled",
         "tracker.handle raises only StopIteration (or subclasses) to request a stop; other exceptions abort the run",
